@@ -449,6 +449,8 @@ class Engine(OpsMixin):
         mod = getattr(fn, "__module__", "") or ""
         if getattr(fn, "_native_model", False):
             return False
+        if not fn.__code__.co_filename.endswith(".py"):
+            return False  # generated code (dataclass __init__ etc.)
         return mod.split(".")[0] in INTERP_PREFIXES
 
     def call(self, fn, args, kwargs):
